@@ -73,7 +73,7 @@ def group(id, args, required=False, multiple=False, requires=(), conflicts=()):
 
 
 def cmd(name, args=(), groups=(), subs=(), aliases=(), short_flag=None, long_flag=None, version=False,
-        long_flag_aliases=(), short_flag_aliases=(), hide=False, about=None, **settings):
+        long_flag_aliases=(), short_flag_aliases=(), hide=False, about=None, term_width=0, **settings):
     s = {k: False for k in SETTINGS}
     for k, v in settings.items():
         assert k in s, k
@@ -81,7 +81,7 @@ def cmd(name, args=(), groups=(), subs=(), aliases=(), short_flag=None, long_fla
     return {"name": b(name), "aliases": [b(x) for x in aliases], "short_flag": b(short_flag) if short_flag else [],
             "long_flag": b(long_flag) if long_flag else [], "long_flag_aliases": [b(x) for x in long_flag_aliases],
             "short_flag_aliases": [b(x) for x in short_flag_aliases], "version": version, "s": s,
-            "hide": hide, "about": b(about) if about else [],
+            "hide": hide, "about": b(about) if about else [], "term_width": term_width,
             "args": list(args), "groups": list(groups), "subs": list(subs)}
 
 
@@ -235,6 +235,9 @@ def f_core():
     add("pos-required-multi", cmd("p", [arg("p1", required=True), arg("p2", num=(0, None))]))
     add("pos-last", cmd("p", [arg("p1"), arg("rest", num=(1, None), last=True), arg("f", "f", action="SetTrue")]))
     add("pos-multi-then-last", cmd("p", [arg("first", num=(1, None)), arg("rest", num=(1, None), last=True), arg("f", "f", action="SetTrue")]))
+    add("negative-numbers", cmd("p", [arg("nums", num=(1, None), negnum=True), arg("v", "v", action="SetTrue"),
+                                      arg("offs", "o", "offsets", num=(1, None), negnum=True)]), extra=["-1", "-2", "1"])
+    add("delim-multi-escape", cmd("p", [arg("p1", num=(1, None), delim=","), arg("f", "f", action="SetTrue")]), extra=["a,b", "c,d"])
     add("pos-tva", cmd("p", [arg("p1"), arg("rest", num=(1, None), tva=True), arg("f", "f", "flag", action="SetTrue")]))
     add("pos-low-index-multi", cmd("p", [arg("files", num=(1, None), required=True), arg("target", required=True), arg("f", "f", action="SetTrue")]))
     add("pos-allow-missing", cmd("p", [arg("p1"), arg("p2", required=True), arg("f", "f", action="SetTrue")], allow_missing_positional=True))
@@ -449,6 +452,10 @@ def f_relx():
     add("group member + default", cmd("p", [arg("x", "x", "xx", defaults=["d"]), arg("a", "a", action="SetTrue", conflicts=["g"]), arg("b", "b", action="SetTrue"),
                                             arg("y", "y", action="SetTrue", default_ifs=[])],
                                       groups=[group("g", ["x"], requires=["b"])]), values=("v",))
+    add("group contains itself", cmd("p", [arg("a", "a", action="SetTrue"), arg("b", "b", action="SetTrue")],
+                                     groups=[group("g", ["a", "b", "g"], required=True)]), values=())
+    add("groups contain each other", cmd("p", [arg("a", "a", action="SetTrue"), arg("b", "b", action="SetTrue")],
+                                         groups=[group("g1", ["a", "g2"]), group("g2", ["b", "g1"])]), values=())
     add("transitive requires", cmd("p", [arg("a", "a", action="SetTrue", requires=["b"]), arg("b", "b", action="SetTrue", requires=["c"]),
                                          arg("c", "c", action="SetTrue")]), values=())
     add("exclusive + required", cmd("p", [arg("e", "e", action="SetTrue", exclusive=True), arg("r", "r", required=True), arg("f", "f", action="SetTrue")]), values=("v",))
@@ -518,6 +525,20 @@ def f_tree():
     add("near-misses", cmd("p", [arg("color", None, "color", vp=vp_possible("always", "never")), arg("verbose", None, "verbose", action="SetTrue")],
                            subs=[cmd("build", [arg("release", None, "release", action="SetTrue")]), cmd("check", aliases=["chk"])]),
         extra=["--colour", "--color=alwys", "--verbos", "--releas", "biuld", "chek", "--", "build", "--color=never"])
+    # help rendered inside a parse at a narrow terminal (the rendering must not panic whatever the width)
+    narrow_leaf = cmd("a-rather-long-subcommand-name", [arg("l", "l", "a-rather-long-option-name", action="SetTrue")], about="about text", term_width=9)
+    add("narrow-terminal", cmd("p", [arg("f", "f", "flag", action="SetTrue", help="some help")], subs=[narrow_leaf], term_width=9, arg_required_else_help=True),
+        extra=["--help", "-h", "help", "a-rather-long-subcommand-name"])
+    # a flag subcommand that has long-flag aliases but no primary long flag
+    add("flag-subcommand-alias-only", cmd("pac", [arg("v", "v", action="SetTrue")],
+                                          subs=[cmd("sync", [arg("u", "u", action="SetTrue")], short_flag="S",
+                                                    subs=[cmd("query", [arg("i", "i", action="SetTrue")], long_flag_aliases=["query", "ask"])]),
+                                                cmd("list", long_flag_aliases=["ls"])]),
+        extra=["--query", "--ask", "--ls", "-S", "-Su", "-i"])
+    # inference reaching a subcommand through an alias that is no prefix of its name
+    add("infer-subcommand-alias", cmd("p", [arg("f", "f", action="SetTrue")],
+                                      subs=[cmd("remove", [arg("x", "x", "force", action="SetTrue")], aliases=["delete"]), cmd("rename")],
+                                      infer_subcommands=True), extra=["delete", "del", "d", "rem", "re", "--force", "-x"])
     # what becomes of argv[0]
     applets = [cmd("true"), cmd("ls", [arg("l", "l", "long", action="SetTrue"), arg("path", num=(0, None))], aliases=["dir"]),
                cmd("box", subs=[cmd("inner", [arg("i", "i", action="SetTrue")])])]
